@@ -23,6 +23,14 @@ tie    : T  translate/t_eig.py regenerates coq/gen/EigSelect.v (which eigenpairs
                   Y^T Y / N = diag(lambda), retained variance = sum of the d largest eigenvalues and not
                   exceeded by random orthonormal competitors (test); both solvers (randomized on exact
                   rank-d data); PCA / Kernel PCA (linear) / MDS (Euclidean) agree up to column sign (test).
+         Wave 2 — "all feature matrices": every stream is also run
+            * as SCALED COPIES (data * 2^k, k in [-60, 60]; probes: matrix * 2^k).  The pipeline is scale-equivariant
+              (theorems C06_scale_equivariant / C06_scale_uncorrelated_retained): the implementation's outputs on
+              2^k X are brought back by the exact factors 2^-k (mean, embedding) and 2^-2k (covariance,
+              eigenvalues) and must then pass the SAME decision procedures with the SAME tolerances as at scale 1;
+              the exact covariance stream stays exact (tol 0) at every scale;
+            * at BOUNDARY SIZES (N in 255, 256, 257, 512; D in 8, 9, 16, 17 on the covariance loop) and SHAPES
+              (D = 1, D > N, N = 2, a zero-variance feature, a feature that is identically zero).
 search : when an obligation or the correspondence breaks, a larger budget of strongly correlated data sets
          is run through the same decision procedures.
 """
@@ -34,8 +42,8 @@ import sys
 from fractions import Fraction
 
 import vlib
-from checks.c07 import (crash_text, fr_hex, parse_fr, hexfloat, flat, mat_of, scale_tol, gen_matrix, dyadic, case_json,
-                        run_model_lines)
+from checks.c07 import (crash_text, fr_hex, parse_fr, hexfloat, flat, mat_of, scale_tol, maxabs, gen_matrix, dyadic,
+                        case_json, run_model_lines)
 
 PROPERTY = "C06"
 
@@ -60,6 +68,8 @@ TRUSTED = [
     "uniqueness of eigenvectors up to sign for simple eigenvalues (PCA = KPCA = MDS up to sign) is classical "
     "mathematics, cited; the agreement is tested, not proved",
     "g++ ASan/UBSan/_GLIBCXX_ASSERTIONS as the memory-safety observer",
+    "scaled copies: outputs of a run on 2^k X are multiplied by the exact factors 2^-k / 2^-2k in Python (Fraction "
+    "arithmetic) before the decision procedures run; justified by theorem C06_scale_equivariant",
 ]
 
 TOL_DENSE = Fraction(1, 10 ** 9)
@@ -94,6 +104,95 @@ def gen_rank(rng, N, D, r):
         a = [Fraction(rng.randint(-6, 6)) for _ in range(r)]
         X.append([mean[i] + sum(a[q] * B[q][i] for q in range(r)) for i in range(D)])
     return X
+
+
+def scaled_copy(c, k):
+    """exact in binary64: the data (COV / EMB) or the probed matrix (RAW / OP / TRI) times 2^k"""
+    s = Fraction(2) ** k
+    cc = dict(c)
+    for key in ("X", "M"):
+        if key in cc:
+            cc[key] = [[v * s for v in row] for row in cc[key]]
+    cc["scale_log2"] = c.get("scale_log2", 0) + k
+    cc["agree"] = False
+    return cc
+
+
+def rand_scale(rng, positive_only=False):
+    ks = [10, 30, 40, 52, 60]
+    return rng.choice(ks if positive_only else ks + [-k for k in ks])
+
+
+def gen_shape(rng, shape, N=None, D=None):
+    """data sets of special shape, integer coordinates (exact covariance stream when N is a power of two)"""
+    if shape == "D=1":
+        D, N = 1, N or rng.choice([2, 4, 5, 8])
+        X = [[Fraction(rng.randint(-9, 9))] for _ in range(N)]
+        if len({tuple(r) for r in X}) == 1:
+            X[0][0] += 1
+    elif shape == "D>N":
+        N = N or rng.choice([2, 3, 4])
+        D = D or N + rng.choice([1, 2, 4])
+        X = gen_matrix(rng, N, D, "int")
+    elif shape == "N=2":
+        N, D = 2, D or rng.choice([1, 2, 3, 5])
+        X = gen_matrix(rng, N, D, "int")
+        if X[0] == X[1]:
+            X[1][0] += 3
+    elif shape in ("zero-variance-feature", "zero-feature"):
+        N, D = N or rng.choice([4, 6, 8]), D or rng.choice([2, 3, 4])
+        X = gen_matrix(rng, N, D, "int")
+        j = rng.randrange(D)
+        cst = Fraction(0) if shape == "zero-feature" else Fraction(rng.choice([-7, 3, 12]))
+        for row in X:
+            row[j] = cst
+    else:
+        raise ValueError(shape)
+    return X, N, D
+
+
+SHAPES = ["D=1", "D>N", "N=2", "zero-variance-feature", "zero-feature"]
+BOUNDARY_N_QUICK = [255, 256, 257, 512]
+BOUNDARY_N_THOROUGH = [127, 128, 129, 255, 256, 257, 511, 512, 513, 1024, 1025]
+BOUNDARY_D = [8, 9, 16, 17, 32, 33, 64, 65]
+
+
+def gen_boundary_cov(rng, sizes, dims):
+    cases = []
+    for N in sizes:
+        D = rng.choice([1, 2, 3])
+        style = rng.choice(["int", "dyadic"])
+        cases.append({"kind": "COV", "D": D, "N": N, "X": gen_matrix(rng, N, D, style), "style": style,
+                      "exact": N & (N - 1) == 0, "boundary": True})
+    for D in dims:
+        N = rng.choice([2, 4, 8])
+        cases.append({"kind": "COV", "D": D, "N": N, "X": gen_matrix(rng, N, D, "int"), "style": "int", "exact": True,
+                      "boundary": True})
+    for shape in SHAPES:
+        X, N, D = gen_shape(rng, shape, N=rng.choice([2, 4]) if shape != "N=2" else None)
+        cases.append({"kind": "COV", "D": D, "N": N, "X": X, "style": shape, "exact": True, "boundary": True})
+    return cases
+
+
+def gen_boundary_emb(rng, sizes):
+    cases = []
+    for shape in SHAPES:
+        X, N, D = gen_shape(rng, shape)
+        d = rng.randint(1, max(1, min(D, N - 1)))
+        cases.append({"kind": "EMB", "solver": "dense", "N": N, "D": D, "d": d, "X": X, "style": shape, "boundary": True,
+                      "agree": N <= 8})
+    for N in sizes:
+        D = rng.choice([2, 3])
+        d = rng.randint(1, D)
+        X = gen_correlated(rng, N, D, rng.random() < 0.5)
+        cases.append({"kind": "EMB", "solver": "dense", "N": N, "D": D, "d": d, "X": X, "style": "correlated",
+                      "boundary": True, "agree": False})
+    if sizes:
+        D = rng.choice([32, 33])              # wide data: the covariance loop and the solver at a blocking size
+        N = rng.choice([12, 40])
+        cases.append({"kind": "EMB", "solver": "dense", "N": N, "D": D, "d": rng.randint(1, 3),
+                      "X": gen_matrix(rng, N, D, "generic"), "style": "generic", "boundary": True, "agree": False})
+    return cases
 
 
 def gen_cov_cases(rng, n_exact, n_tol):
@@ -265,6 +364,22 @@ def ref_eigs(ctx, exe, mats):
     return out
 
 
+def unit_of(c):
+    """2^-k for a scaled copy (k = scale_log2), 1 otherwise: the exact factor that brings the data back"""
+    return Fraction(2) ** (-c.get("scale_log2", 0))
+
+
+def mscale(M, f):
+    return M if f == 1 else [[v * f for v in row] for row in M]
+
+
+def got_scale(got, f):
+    """a parsed (n, m, rows) output times f"""
+    if got is None or f == 1:
+        return got
+    return got[0], got[1], mscale(got[2], f)
+
+
 class Stats:
     def __init__(self):
         self.evaluated = 0
@@ -305,7 +420,17 @@ def evaluate(ctx, exe, mexe, cases, st, record=True):
     post = []                                  # deferred work needing reference eigenvalues
 
     def viol(i, why):
-        if verdicts[i] == "violation":
+        if verdicts[i] in ("violation", "known"):
+            return
+        c = cases[i]
+        if c.get("solver") == "randomized" and c.get("scale_log2", 0) <= -30:
+            # entries below 2^-30 * 100: every Gram-Schmidt norm of the randomized front-end is far below its
+            # ABSOLUTE cut-off 1e-4, the columns are zeroed and scaled by 1/0 (known finding F36)
+            why += " [tiny-scale input: the absolute cut-off `norm < 1e-4` of the randomized front-end fired]"
+            if not record or not ctx.violation(case_json(c), why, signature=F36):
+                verdicts[i] = "known"
+                return
+            verdicts[i] = "violation"
             return
         verdicts[i] = "violation"
         if record:
@@ -349,7 +474,9 @@ def evaluate(ctx, exe, mexe, cases, st, record=True):
                 viol(i, "the implementation aborts / hangs on this input (%s): %s" % (kind, crash_text(r["crashed"])))
             continue
         if r["X"] is not None:
-            if kind == "EMB":
+            if kind in ("EMB", "TRI") and c.get("solver") == "randomized" and c.get("scale_log2", 0) <= -30:
+                viol(i, "the randomized eigensolver raises on exact-rank data: %s" % r["X"])
+            elif kind == "EMB":
                 verdicts[i] = "skip"
                 st.bump(st.skipped, "pca-%s:exception" % c["solver"])
             elif kind in ("COV", "OP"):
@@ -360,10 +487,14 @@ def evaluate(ctx, exe, mexe, cases, st, record=True):
             continue
         R = r["R"]
         D = c["D"]
+        # scaled copy: everything below is expressed in the units of the UNscaled data (exact factors 2^-k for
+        # vectors, 2^-2k for second moments); theorem C06_scale_equivariant is what makes this legitimate
+        u = unit_of(c)
+        Xn = mscale(c["X"], u) if "X" in c else None
         if kind == "COV":
             N = c["N"]
-            cov = mat_of(R.get("cov", []), hexfloat)
-            mean = mat_of(R.get("mean", []), hexfloat)
+            cov = got_scale(mat_of(R.get("cov", []), hexfloat), u * u)
+            mean = got_scale(mat_of(R.get("mean", []), hexfloat), u)
             if cov is None or mean is None or (cov[0], cov[1]) != (D, D) or mean[0] != D:
                 viol(i, "compute_mean / compute_covariance_matrix: output missing, malformed, not finite or of "
                         "the wrong shape")
@@ -373,8 +504,10 @@ def evaluate(ctx, exe, mexe, cases, st, record=True):
             if Cm is None:
                 mism(i, "model answers %r on an input the implementation accepted" % model[(i, "cov")][:60])
                 continue
-            tol = Fraction(0) if c["exact"] else TOL_DENSE * (1 + scale_tol(c["X"]) ** 2)
-            xs = fnums(flat(c["X"]))
+            Cm = mscale(Cm, u * u)
+            Cold = mscale(Cold, u * u) if Cold is not None else None
+            tol = Fraction(0) if c["exact"] else TOL_DENSE * (1 + scale_tol(Xn) ** 2)
+            xs = fnums(flat(Xn))
             cs = fnums(flat(cov[2]))
             old = " [the returned matrix equals the model of the code BEFORE fix F8: only the upper triangle is filled]" \
                 if (Cold is not None and cov[2] == Cold and Cold != Cm) else ""
@@ -389,11 +522,11 @@ def evaluate(ctx, exe, mexe, cases, st, record=True):
                                   "triangle) is not the sample covariance of the data" + old, "violation"))
             st.exact_compared += 1
             mm = model[(i, "mean")].split()
-            mvals = [parse_fr(t) for t in mm[1:]] if mm and mm[0] == "OK" else None
+            mvals = [parse_fr(t) * u for t in mm[1:]] if mm and mm[0] == "OK" else None
             ivals = [row[0] for row in mean[2]]
             if mvals is None or len(mvals) != D or \
                     (c["exact"] and mvals != ivals) or \
-                    (not c["exact"] and any(abs(a - b) > TOL_DENSE * (1 + scale_tol(c["X"])) for a, b in zip(mvals, ivals))):
+                    (not c["exact"] and any(abs(a - b) > TOL_DENSE * (1 + scale_tol(Xn)) for a, b in zip(mvals, ivals))):
                 mism(i, "compute_mean: implementation %s, model %s" % ([str(x) for x in ivals[:4]], mm[:5]))
             if c["exact"]:
                 if cov[2] != Cm:
@@ -423,11 +556,12 @@ def evaluate(ctx, exe, mexe, cases, st, record=True):
         if kind in ("RAW", "TRI"):
             d = D if kind == "RAW" else c["d"]
             vecs = mat_of(R.get("vecs", []), hexfloat)
-            vals = mat_of(R.get("vals", []), hexfloat)
+            vals = got_scale(mat_of(R.get("vals", []), hexfloat), u)
             if kind == "RAW":
-                S = read_lower(c["M"])
+                S = mscale(read_lower(c["M"]), u)
             else:
                 S = model_matrix(model[(i, "seen")], D)
+                S = mscale(S, u) if S is not None else None
             if vecs is None or vals is None or S is None or (vecs[0], vecs[1]) != (D, d) or vals[0] < d:
                 if kind == "RAW":
                     ctx.unshown("oracle probe: Eigen::SelfAdjointEigenSolver output malformed")
@@ -442,7 +576,9 @@ def evaluate(ctx, exe, mexe, cases, st, record=True):
         # ---- EMB (pca)
         N, d = c["N"], c["d"]
         Cm = model_matrix(model[(i, "cov")], D)
+        Cm = mscale(Cm, u * u) if Cm is not None else None
         emb, P, m = (mat_of(R.get(t, []), hexfloat) for t in ("emb", "P", "m"))
+        emb, m = got_scale(emb, u), got_scale(m, u)
         if R.get("has", [""])[0] != "1" or "P" not in R:
             viol(i, "PCA did not return a MatrixProjectionImplementation")
             continue
@@ -516,12 +652,13 @@ def evaluate(ctx, exe, mexe, cases, st, record=True):
         if order != list(range(d)):
             st.bump(st.views, "pca-columns-not-in-ascending-eigenvalue-order")
         cs, ps = fnums(flat(Cm)), fnums(flat(P))
-        xs = fnums(flat(c["X"]))
+        Xn = mscale(c["X"], unit_of(c))
+        xs = fnums(flat(Xn))
         spec_lines.append("SEIG %d %d %s %s %s %s" % (D, d, fr_hex(tol), cs, ps, fnums(top)))
         spec_owner.append((i, "PCA(%s): the returned projection matrix does not have orthonormal columns spanning "
                               "the leading %d-dimensional eigenspace of the sample covariance (C P != P diag(top-d "
                               "eigenvalues %s) or P^T P != I)" % (c["solver"], d, [float(x) for x in top]), "violation"))
-        xscale = 1 + scale_tol(c["X"]) + scale_tol([mv])
+        xscale = 1 + scale_tol(Xn) + scale_tol([mv])
         spec_lines.append("SOUT %d %d %d %s %s %s %s %s" % (N, D, d, fr_hex(tolr * xscale * D), xs, fnums(flat(Y)), ps,
                                                            fnums(mv)))
         spec_owner.append((i, "PCA(%s): the embedding is not (X - mean) P for the returned P and the training mean"
@@ -565,7 +702,7 @@ def evaluate(ctx, exe, mexe, cases, st, record=True):
         for i in probe_failed:
             c = cases[i]
             D = c["D"]
-            M = c["M"]
+            M = mscale(c["M"], unit_of(c))
             avg = [[(M[a][b] + M[b][a]) / 2 for b in range(D)] for a in range(D)]
             for name, S in (("lower", read_lower(M)), ("upper", read_upper(M)), ("average", avg)):
                 alts.append((i, name, S))
@@ -612,7 +749,7 @@ def evaluate(ctx, exe, mexe, cases, st, record=True):
                 continue
             simple = all((ev[-q] - ev[-q - 1]) > lmax / 10 ** 5 for q in range(1, d)) if d > 1 else True
             for meth, r in (("kpca", oimpl[2 * j]), ("mds", oimpl[2 * j + 1])):
-                E = mat_of(r["R"].get("emb", []), hexfloat)
+                E = got_scale(mat_of(r["R"].get("emb", []), hexfloat), unit_of(c))
                 if r["crashed"] or r["X"] is not None or E is None or (E[0], E[1]) != (N, d):
                     st.bump(st.skipped, "agreement:%s-no-output" % meth)
                     continue
@@ -699,32 +836,66 @@ def translate(ctx):
     return ok
 
 
+F36 = "F36-randomized-eig-rank-deficient"
+
+
+def f36_registered(ctx):
+    """the ABSOLUTE cut-off `norm < 1e-4` of the randomized front-end (known finding F36, owned by C05/C01) makes
+    the randomized solver fail on tiny-scale data of any rank; tiny-scale randomized cases are generated only when
+    that finding is registered for this property too (they are then reported under its signature)"""
+    return any(e.get("signature") == F36 for e in getattr(ctx, "_known_db", []))
+
+
 def build_cases(ctx, quick):
     rng = ctx.rng
     cases, hist = [], {}
+
+    def add(c, key):
+        cases.append(c)
+        hist[key] = hist.get(key, 0) + 1
+        if c.get("scale_log2"):
+            hist["scaled-copy"] = hist.get("scaled-copy", 0) + 1
+            hist["scaled-copy:2^%d" % c["scale_log2"]] = hist.get("scaled-copy:2^%d" % c["scale_log2"], 0) + 1
+        if c.get("boundary"):
+            hist["boundary-size-or-shape"] = hist.get("boundary-size-or-shape", 0) + 1
+
     for name, cj in ctx.corpus():
         try:
-            cases.append(case_from_json(cj))
-            hist["corpus"] = hist.get("corpus", 0) + 1
+            add(case_from_json(cj), "corpus")
         except Exception as ex:
             ctx.note("corpus file %s not usable: %s" % (name, ex))
+    every = 2 if quick else 1                 # every `every`-th case of each stream also as a scaled copy
+    tiny_randomized = f36_registered(ctx)
     cov = gen_cov_cases(rng, 40 if quick else 400, 10 if quick else 100)
-    probes = gen_probe_cases(rng, 6 if quick else 40)
-    cases += cov + probes
-    for c in cov:
-        hist["cov:" + ("exact" if c["exact"] else "tolerance")] = hist.get("cov:" + ("exact" if c["exact"] else "tolerance"), 0) + 1
-    for c in probes:
+    cov += gen_boundary_cov(rng, BOUNDARY_N_QUICK if quick else BOUNDARY_N_THOROUGH,
+                            rng.sample(BOUNDARY_D, 2) if quick else BOUNDARY_D)
+    for j, c in enumerate(cov):
+        key = "cov:" + ("exact" if c["exact"] else "tolerance")
+        add(c, key)
+        if j % every == 0:
+            add(scaled_copy(c, rand_scale(rng)), key)
+    for j, c in enumerate(gen_probe_cases(rng, 6 if quick else 40)):
         key = "probe:" + c["kind"] + (":" + c["solver"] if c["kind"] == "TRI" else "")
-        hist[key] = hist.get(key, 0) + 1
+        add(c, key)
+        if j % every == 0 or (c["kind"] == "TRI" and j % 3 == 2):
+            rand_tri = c["kind"] == "TRI" and c["solver"] == "randomized"
+            add(scaled_copy(c, rand_scale(rng, positive_only=rand_tri and not tiny_randomized)), key)
     n_dense, n_rand = (24, 6) if quick else (250, 60)
+    embs = []
     for j in range(n_dense):
         c = gen_emb(rng, "dense", "small" if (quick or j % 8) else "large")
         c["agree"] = (j % 2 == 0) and c["N"] <= 24
-        cases.append(c)
-        hist["api:pca-dense"] = hist.get("api:pca-dense", 0) + 1
+        embs.append(c)
+    embs += gen_boundary_emb(rng, [256, 257] if quick else BOUNDARY_N_THOROUGH)
+    for j, c in enumerate(embs):
+        add(c, "api:pca-dense")
+        if j % every == 0:
+            add(scaled_copy(c, rand_scale(rng)), "api:pca-dense")
     for j in range(n_rand):
-        cases.append(gen_emb(rng, "randomized"))
-        hist["api:pca-randomized"] = hist.get("api:pca-randomized", 0) + 1
+        c = gen_emb(rng, "randomized")
+        add(c, "api:pca-randomized")
+        if j % every == 0:
+            add(scaled_copy(c, rand_scale(rng, positive_only=not tiny_randomized)), "api:pca-randomized")
     return cases, hist
 
 
@@ -748,10 +919,14 @@ def run(ctx):
                     for d2 in vals:
                         extra.append({"kind": "COV", "D": 2, "N": 2, "X": [[a, b], [c2, d2]], "style": "int",
                                       "exact": True})
-        for j in range(150):
-            extra.append(gen_emb(ctx.rng, "dense", "small" if j % 8 else "large"))
+        extra += gen_boundary_cov(ctx.rng, BOUNDARY_N_THOROUGH, BOUNDARY_D)
+        extra += [scaled_copy(c, rand_scale(ctx.rng)) for c in extra if ctx.rng.random() < 0.5]
+        embs = [gen_emb(ctx.rng, "dense", "small" if j % 8 else "large") for j in range(150)]
+        embs += gen_boundary_emb(ctx.rng, [256, 257]) + gen_boundary_emb(ctx.rng, [])
+        extra += embs + [scaled_copy(c, rand_scale(ctx.rng)) for c in embs if ctx.rng.random() < 0.5]
         for j in range(30):
-            extra.append(gen_emb(ctx.rng, "randomized"))
+            c = gen_emb(ctx.rng, "randomized")
+            extra += [c, scaled_copy(c, rand_scale(ctx.rng, positive_only=not f36_registered(ctx)))]
         verdicts += evaluate(ctx, exe, mexe, extra, st)
         cases += extra
         searched = len(extra)
@@ -802,7 +977,12 @@ def run(ctx):
              "entry by entry with the extracted model and by the decision procedures with tol = 0; tolerance: "
              "generic doubles, any N); probes of Eigen / DenseMatrixOperation / the two front-ends on matrices whose "
              "triangles differ; public API PCA, dense on all styles with d in [1, min(D, N-1)], randomized on exact "
-             "rank-d integer data; every second small dense case also through Kernel PCA and MDS.  non-trivial = "
+             "rank-d integer data; every second small dense case also through Kernel PCA and MDS.  Wave 2: boundary sizes "
+             "(covariance at N = 255, 256, 257, 512 and D in 8..65; PCA at N = 256, 257, D = 32/33) and shapes (D = 1, "
+             "D > N, N = 2, zero-variance feature, identically zero feature); every second case of every stream also as "
+             "a scaled copy (data or probed matrix times 2^k, k in +-{10, 30, 40, 52, 60}; randomized solver: k > 0 only, "
+             "its absolute cut-off at tiny scales is known finding F36), evaluated after undoing the exact scaling.  "
+             "non-trivial = "
              "COV/EMB with N >= 2 and D >= 2, or a probe; distinct by hash of the case.",
         samples=samples,
         histogram={"generators": hist, "verdicts": {v: verdicts.count(v) for v in set(verdicts)},
